@@ -6,13 +6,27 @@ import (
 	"flag"
 	"fmt"
 	"os"
+	"testing"
+	"testing/synctest"
 
+	"verif/harness/comp/kcpcore"
 	"verif/harness/comp/ring"
 	"verif/harness/internal/hx"
 )
 
-var components = map[string]func(o *hx.Out, g *hx.Rng, tier string){
-	"ring": ring.Run,
+type component struct {
+	run    func(o *hx.Out, g *hx.Rng, tier string)
+	bubble bool // run inside a testing/synctest bubble (frozen virtual clock)
+}
+
+var components = map[string]component{
+	"ring":      {ring.Run, false},
+	"kcp":       {kcpcore.Run, true},
+	"kcp-clean": {kcpcore.RunClean, true},
+	"kcp-stall": {kcpcore.RunStall, true},
+	"kcp-shift": {kcpcore.RunShift, true},
+	"kcp-mtu":   {kcpcore.RunMtu, true},
+	"kcp-forge": {kcpcore.RunForge, true},
 }
 
 func main() {
@@ -21,12 +35,24 @@ func main() {
 	tier := flag.String("tier", "quick", "quick|thorough")
 	out := flag.String("out", "", "output directory")
 	flag.Parse()
-	run, ok := components[*comp]
+	c, ok := components[*comp]
 	if !ok || *out == "" {
 		fmt.Fprintln(os.Stderr, "usage: corr -comp <name> -out <dir> [-seed n] [-tier quick|thorough]")
 		os.Exit(2)
 	}
-	o := hx.NewOut(*out, *comp, *seed, *tier)
-	run(o, hx.NewRng(*seed), *tier)
-	o.Close()
+	body := func() {
+		o := hx.NewOut(*out, *comp, *seed, *tier)
+		c.run(o, hx.NewRng(*seed), *tier)
+		o.Close()
+	}
+	if !c.bubble {
+		body()
+		return
+	}
+	// synctest needs a *testing.T: run the component as the only test of an in-process test main.
+	os.Args = []string{os.Args[0], "-test.timeout=0"}
+	testing.Main(func(pat, str string) (bool, error) { return true, nil },
+		[]testing.InternalTest{{Name: "corr", F: func(t *testing.T) {
+			synctest.Test(t, func(t *testing.T) { body() })
+		}}}, nil, nil)
 }
